@@ -150,6 +150,11 @@ def judge(ctx, rep, r):
             rep.count("timing_dependent_differences")
             return
         ka, kb = d2
+        if sorted(set(map(str, ka))) == sorted(set(map(str, kb))):
+            # same diagnostics, but some of them published more than once (the didSave check and the background check overlap)
+            rep.violation("duplicated-diagnostics", f"after the edit history the server's last publication lists {len(ka)} diagnostics, a fresh server "
+                          f"{len(kb)}: the same set, with duplicates\nfinal text:\n{r['final']}", case)
+            return
         only_inc = [x for x in ka if x not in kb]
         only_fresh = [x for x in kb if x not in ka]
         kind = "stale-diagnostic" if only_inc and not only_fresh else ("missing-diagnostic" if only_fresh and not only_inc else "different-diagnostics")
